@@ -12,9 +12,9 @@
    _partial: [pieces_ok] is a hypothesis.  It is local (one piece and the first runes after it),
    decidable, stated with the lexer model's own next_token, and evaluated by the harness on the
    formatter model's pieces of every formatted input together with the conclusion; it is proved
-   here only for the layout pieces (newline, blank, indentation) and the operator / bracket
-   pieces.  For identifiers, keywords, numbers, strings and comments it depends on the
-   unicode.IsLetter / IsDigit oracles and on strconv.Unquote of the quoted text and is not proved. *)
+   here for the layout pieces (newline, blank, indentation), the operator / bracket pieces and -
+   relative to the unicode.IsLetter / IsDigit oracles - identifier and keyword pieces.  For numbers,
+   strings (strconv.Unquote of the quoted text) and comments it is not proved. *)
 From Coq Require Import List String NArith Bool.
 From EvyV Require Import Base Format Pratt Lexer FormatParse FormatLex FormatLexProofs.
 From EvyV.Gen Require Prec TokenTypes.
@@ -56,6 +56,35 @@ Proof.
   - apply piece_ok_eq_prefix.
 Qed.
 Print Assumptions C06_operator_pieces_lex.
+
+(* ... and for identifier and keyword pieces: a text that is a word for the oracles (a letter or "_"
+   that is none of the runes Lexer.Next tests first, then letters / digits / "_"), in front of
+   anything that does not continue a word.  The lexer's keyword table (Gen.Keywords, from token.go's
+   `keywords`) and the token view's (FormatParse.keyword_table, from Token.AsIdent) are shown to agree. *)
+Theorem C06_word_pieces_lex :
+  forall (is_letter is_digit : N -> bool) (s z : str),
+  word is_letter is_digit s = true -> ends_word is_letter is_digit z = true ->
+  (ident_text s = true -> piece_ok is_letter is_digit (T s) z = true) /\
+  (forall t, assoc_tt s punct_table = None -> assoc_tt s keyword_table = Some t -> piece_ok is_letter is_digit (T s) z = true).
+Proof.
+  intros l d s z Hw Hz. split; [intro Hi; apply piece_ok_ident; assumption | intros t Hp Hk; eapply piece_ok_keyword; eassumption].
+Qed.
+Print Assumptions C06_word_pieces_lex.
+
+(* instance: with the ASCII letters and digits as oracles, every keyword the formatter writes and, e.g.,
+   the identifier  total_2  are read back as one token in front of a blank, a newline or the end *)
+Example C06_word_pieces_ascii :
+  let letter := fun c : N => (((97 <=? c) && (c <=? 122)) || ((65 <=? c) && (c <=? 90)))%N in
+  let digit := fun c : N => ((48 <=? c) && (c <=? 57))%N in
+  forall z, ends_word letter digit z = true ->
+  Forall (fun s => piece_ok letter digit (T s) z = true)
+         [k_if; k_else; k_end; k_while; k_for; k_range; k_func; k_on; k_return; k_break; s_ "total_2"%string].
+Proof.
+  intros letter digit z Hz.
+  repeat (apply Forall_cons; [first [ eapply piece_ok_keyword; [reflexivity | reflexivity | vm_compute; reflexivity | exact Hz]
+                                     | apply piece_ok_ident; [vm_compute; reflexivity | vm_compute; reflexivity | exact Hz] ]|]).
+  constructor.
+Qed.
 
 (* non-vacuity: the pieces of   x := [1 2]   with the ASCII letters and digits *)
 Example C06_lex_example :
